@@ -55,7 +55,7 @@ func c08Oracle(sc advScenario, r *advResult) error {
 			inflight += w.End - r.StopAt
 		}
 	}
-	lifeKnown := sc.Cfg.LifeS > 0
+	lifeKnown := sc.Cfg.LifeS > 0 && sc.Fwd0 // (otherwise every RA has lifetime 0, and the final one is told by its position)
 	isFinal := func(w simWrite) bool { return w.Dst == vkAllNodes && w.Lifetime == 0 }
 	finals := 0
 	var finalW simWrite
@@ -71,14 +71,45 @@ func c08Oracle(sc advScenario, r *advResult) error {
 			finalW = w
 		}
 	}
+	strictlyAfter, atStop := 0, 0
 	if !lifeKnown {
-		// configured lifetime 0: every RA has lifetime 0; judge by position only
-		for _, w := range after {
+		// configured lifetime 0 (or not forwarding): every RA has lifetime 0; judge by position only
+		seenConn := map[int]bool{}
+		for _, w := range r.Writes {
+			initial := !seenConn[w.Conn] // (the first write of a connection is its initial RA)
+			seenConn[w.Conn] = true
+			if w.Start < r.StopAt {
+				continue
+			}
 			if w.Dst == vkAllNodes {
+				if initial {
+					continue // the initial RA of a connection that was being set up when the stop came: work in progress, not a farewell
+				}
 				finals++
 				finalW = w
+				if w.Start > r.StopAt && sc.StateDelayNS == 0 {
+					strictlyAfter++ // (with slow state reads an RA whose generation began before the stop goes out after it)
+				} else {
+					atStop++ // (may have been due before the stop)
+				}
 			}
 		}
+	}
+	// the stop may arrive while the interface has no connection at all: its task was torn down (a link change) and the
+	// re-initialisation has not produced the next connection yet - or both happened at the very instant of the stop.
+	// What a farewell would be sent on then, the statement does not say: the count of final RAs is not judged (every
+	// other rule is)
+	noConn := false
+	r.W.mu.Lock()
+	if n := len(r.W.conns); n > 0 {
+		lc := r.W.conns[n-1]
+		lc.mu.Lock()
+		noConn = lc.torn >= 0 && lc.torn <= r.StopAt
+		lc.mu.Unlock()
+	}
+	r.W.mu.Unlock()
+	if sc.Terminate && noConn && finals == 0 {
+		return nil
 	}
 	if sc.Terminate {
 		if lifeKnown && finals != 1 {
@@ -87,8 +118,11 @@ func c08Oracle(sc advScenario, r *advResult) error {
 		if !lifeKnown && finals < 1 {
 			return verifkit.Violf("C08/terminate-0-final-ras", "terminating advertiser sent no multicast RA after the stop\n%s", tl())
 		}
-		if lifeKnown {
-			if want := sc.Cfg.expect(true, true); finalW.RA != want {
+		if !lifeKnown && strictlyAfter > 1 {
+			return verifkit.Violf("C08/terminate-2-final-ras", "terminating advertiser sent %d multicast RAs after the stop, want exactly 1\n%s", strictlyAfter, tl())
+		}
+		{
+			if want := sc.Cfg.expect(sc.Fwd0, true); finalW.RA != want {
 				return verifkit.Violf("C08/final-ra-content", "final RA differs from the normal RA in more than the lifetime:\nwant %s\ngot  %s", want, finalW.RA)
 			}
 		}
@@ -102,6 +136,8 @@ func c08Oracle(sc advScenario, r *advResult) error {
 		}
 	} else if lifeKnown && finals != 0 {
 		return verifkit.Violf("C08/reload-final-ra", "reloading advertiser sent a zero-lifetime RA at %v\n%s", finalW.Start, tl())
+	} else if !lifeKnown && strictlyAfter != 0 {
+		return verifkit.Violf("C08/reload-final-ra", "reloading advertiser sent a multicast RA at %v, after the stop\n%s", finalW.Start, tl())
 	}
 	// promptness: never waits for a pending delay
 	// (every RA built after the stop is preceded by one state read)
@@ -159,7 +195,7 @@ func c08Gen(t *rapid.T) advScenario {
 	if rapid.IntRange(0, 7).Draw(t, "life0") == 0 {
 		cfg.LifeS = 0
 	}
-	sc := advScenario{Cfg: cfg, Fwd0: true, Terminate: rapid.Bool().Draw(t, "terminate")}
+	sc := advScenario{Cfg: cfg, Fwd0: rapid.IntRange(0, 5).Draw(t, "notforwarding") != 0, Terminate: rapid.Bool().Draw(t, "terminate")}
 	stop := rapid.SampledFrom([]int64{0, 1, 3 * s, 3*s - 1, 3*s + 1, 4 * s, 7 * s}).Draw(t, "stopbase")
 	if rapid.Bool().Draw(t, "stopany") {
 		stop = rapid.Int64Range(0, 12*s).Draw(t, "stop")
